@@ -2365,6 +2365,27 @@ fn main() {
         ctx.exclusive_emb = false;
     }
 
+    // ---- outside the property's operations (observation, never judged): `restore_from_bytes` on a
+    //      store with a Bloom filter writes the restored keys through the router without telling the
+    //      filter - scan lists them, get / exists deny them (sequential; proposed/C11-restore-from-bytes-bloom.diff)
+    {
+        let src = TensorStore::new();
+        let _ = src.put("user:restored", Val { tag: 1, vec: VecF::N }.data());
+        if let Ok(bytes) = src.snapshot_bytes() {
+            let dst = TensorStore::with_bloom_filter(64, 0.01);
+            if dst.restore_from_bytes(&bytes).is_ok() {
+                let listed = dst.scan("user:").contains(&"user:restored".to_string());
+                let (ex, got) = (dst.exists("user:restored"), dst.get("user:restored").is_ok());
+                ctx.rep.hit(if listed && !(ex && got) { "observed:restore_from_bytes_bypasses_bloom_filter" } else { "observed:restore_from_bytes_keys_found_on_bloom_store" });
+                if listed && !(ex && got) {
+                    ctx.rep.observe(json!({"what": "TensorStore::restore_from_bytes on a store built with a Bloom filter: the restored key is listed by scan but exists / get answer absent (the filter was not told); restore_from_bytes is not one of C11's operations",
+                        "input": "src = TensorStore::new(); src.put(\"user:restored\", v); dst = TensorStore::with_bloom_filter(64, 0.01); dst.restore_from_bytes(&src.snapshot_bytes()?)",
+                        "scan_lists_key": listed, "exists": ex, "get_finds": got, "proposed": "proposed/C11-restore-from-bytes-bloom.diff"}));
+                }
+            }
+        }
+    }
+
     let (budget_hits, stalls) = (ctx.budget_hits, ctx.stalls);
     let counts = ctx.viol_count.clone();
     drop(ctx);
